@@ -38,7 +38,7 @@ CFG = {
     "model_obs": ["handled"],
     "maxdepths": [None, None, 5, 9],
     "raise_p": 0.12, "none_p": 0.06, "catch_all_p": 0.35,
-    "fail_cell_p": 0.2, "handled_seq_p": 0.3, "lam_p": 0.25, "block_p": 0.07,
+    "fail_cell_p": 0.2, "handled_seq_p": 0.3, "lam_p": 0.25, "block_p": 0.07, "via_p": 0.12,
     "rule": "scenario families (k handled failures, then an escaping one, in ONE top-level evaluation: kinds, "
             "catch clauses, position of the handler, chain shapes through cached/uncached/lambda/recursive cells, "
             "earlier failures and retries; family `blocks`: a cells evaluated WHILE the exception passes through a "
@@ -271,6 +271,105 @@ def block_scenarios(rng, n_random):
     return out
 
 
+def _via(kind, e):
+    return e if kind is None else ("via", kind, e)
+
+
+def frame_scenario(label, links, ke, shape="chain", hist="full"):
+    """The escaping chain passes through extra plain Python frames that belong to the formulas.
+    links: outermost first, one (flavour, via kind or None) per cells of the chain; the via of the innermost cells
+    wraps what fails, every other one wraps the call of the next cells (kind "def+gen": a generator expression inside
+    a nested def).  ke: kind of the failure (0..6, "noneret", "deep").
+    shape: "chain"; "resumed" = every caller first makes a call that succeeds inside a frame of the same kind;
+    "shared" = the succeeding and the failing call share ONE extra frame; "handled" = every caller first handles a
+    failure that reached it through such a frame; "inblock" = the frame sits in the body and in the block of an
+    except-reraise."""
+    P = _Prog()
+    okc = P.cell(("add", P0, _lit(1)), "c")
+    H = P.chain("c", 1)
+
+    def wrap(kind, e):
+        if kind is not None and not lambda_ok(e):
+            return ("via", "def", e)        # statements (raise KeyboardInterrupt, try) need a def
+        if kind == "def+gen":
+            return ("via", "def", ("add", ("via", "gen", e), _lit(0)))
+        return _via(kind, e)
+
+    flav, kind = links[-1]
+    lam = flav in "lv"
+    if ke == "noneret":
+        inner = P.cell(("none",), "l" if lam else "c")
+        nxt = P.cell(wrap(kind, _call(inner, P0)), flav)
+    elif ke == "deep":
+        cid = len(P.cells)
+        nxt = P.cell(("if", ("lt", _lit(0), P0), ("add", wrap(kind, _call(cid, ("sub", P0, _lit(1)))), _lit(1)), _lit(0)),
+                     flav)
+        nxt = P.cell(_call(nxt, _lit(40)), "c")
+    else:
+        nxt = P.cell(wrap(kind, ("raise", ke)), flav)
+    for i, (flav, kind) in enumerate(reversed(links[:-1])):
+        call = wrap(kind, _call(nxt, ("add", P0, _lit(1))))
+        if shape == "resumed":
+            body = ("add", wrap(kind, _call(okc, P0)), call)
+        elif shape == "shared" and kind is not None:
+            body = wrap(kind, ("add", _call(okc, P0), _call(nxt, ("add", P0, _lit(1)))))
+        elif shape == "handled":
+            body = _seq([("try", wrap(kind, _call(H, ("add", P0, _lit(i)))), ("all", "k1")[i % 2], _lit(i))], call)
+        elif shape == "inblock" and kind != "def+gen":
+            body = ("tryre", call, "all", wrap(kind, _call(okc, ("add", P0, _lit(7)))))
+        else:
+            body = ("add", call, _lit(1))
+        nxt = P.cell(body, flav)
+    t = str(nxt)
+    if hist == "fresh":
+        ops = [["eval", t, "1"]]
+    else:
+        ops = [["eval", str(H), "1"], ["eval", t, "1"], ["eval", t, "1"], ["eval", t, "2"], ["clear", str(okc)],
+               ["eval", t, "1"]]
+    return {"cells": P.cells, "refs": {0: 1, 1: 2, 2: 3, 3: 4}, "n_rn": 2,
+            "maxdepth": 12 if ke == "deep" else None, "ops": ops, "label": label}
+
+
+FRAME_KINDS = ["gen", "comp", "lam", "map", "sorted", "def"]
+
+
+def frame_scenarios(rng, n_random):
+    out = []
+
+    def add(links, ke, shape="chain", hist="full"):
+        out.append(frame_scenario("frames/%s esc=%s %s %s" % (
+            " ".join("%s:%s" % (f, k or "-") for f, k in links), ke, shape, hist), links, ke, shape, hist))
+    # every kind of frame x where it sits in a chain of three x cached / uncached
+    for K in FRAME_KINDS + ["def+gen"]:
+        for where in ("top", "mid", "leaf", "all"):
+            for f in "cu":
+                add([(f, K if where in ("top", "all") else None), (f, K if where in ("mid", "all") else None),
+                     ("c", K if where in ("leaf", "all") else None)], 0 if f == "c" else 1)
+    # two different kinds in consecutive links, longer chains
+    for i, K1 in enumerate(FRAME_KINDS):
+        for j in (1, 3):
+            K2 = FRAME_KINDS[(i + j) % len(FRAME_KINDS)]
+            add([("c", K1), ("u" if j == 1 else "c", K2), ("c", None), ("c", K1 if j == 3 else None)], (i + j) % 4)
+    # the frame is left and entered again / shared / follows handled failures / sits around and in a reraise block
+    for i, K in enumerate(FRAME_KINDS + ["def+gen"]):
+        for shape in ("resumed", "shared", "handled", "inblock"):
+            add([("c", K), ("cu"[i % 2], K), ("c", None)], i % 4, shape)
+    # kinds of the failure; formulas given as lambdas (expression frames only)
+    for i, K in enumerate(FRAME_KINDS):
+        add([("c", K), ("c", K), ("c", K)], "noneret")
+        add([("c", None), ("c", K)], "deep")
+        add([("c", K), ("c", None), ("c", None)], 6)
+    for K in ("gen", "comp", "lam", "map"):
+        add([("l", K), ("v", K), ("l", K)], 2)
+        add([("c", K), ("l", None), ("c", None)], 0, "chain", "fresh")
+    shapes = ["chain", "chain", "resumed", "shared", "handled", "inblock"]
+    for _ in range(n_random):
+        n = rng.choice([2, 3, 3, 4, 5])
+        links = [(rng.choice("ccu"), rng.choice(FRAME_KINDS + ["def+gen", None])) for _ in range(n)]
+        add(links, rng.choice([0, 1, 2, 3, 6, "noneret", "deep"]), rng.choice(shapes), rng.choice(["full", "full", "fresh"]))
+    return out
+
+
 def _khs(kh, ke, k):
     """k handled kinds: the first of kind kh, then alternating with the kind that will escape (when a formula can
     handle it) – both `same kind as the escaping one` and `another kind` occur among the handled ones"""
@@ -406,7 +505,8 @@ def _report(out, got, want, hist, case, kind):
 def run(ctx, out):
     X.run_family(ctx, out, CFG, oracle, 200, 3000,
                  structured=scenarios(ctx.rng("scenarios"), ctx.n(40, 400)) +
-                 block_scenarios(ctx.rng("blocks"), ctx.n(30, 400)))
+                 block_scenarios(ctx.rng("blocks"), ctx.n(30, 400)) +
+                 frame_scenarios(ctx.rng("frames"), ctx.n(30, 400)))
     out.assumptions.append("line numbers are CPython's; they are checked against the interpreter's own traceback of "
                            "the original exception by the oracle, not modelled in Lean")
 
